@@ -7,6 +7,7 @@ from typing import Callable, Dict, List, Optional, Tuple
 
 from .formula import (
     Canon,
+    implies,
     F_not,
     atoms_of,
     evaluate,
@@ -48,7 +49,7 @@ class Rejections:
                     st = cfg.nodes[gnid].stmt
                     if not isinstance(st, (ast.If, ast.While)):
                         continue
-                    t = self.flow.expand(st.test, gnid)
+                    t = self.flow.expand_shallow(st.test, gnid)
                     conds.append((t, label == "T"))
                     try:
                         fs.append(self.canon.formula(t, label == "T"))
@@ -71,21 +72,76 @@ class Rejections:
                         seen.setdefault(norm(x), x)
         return list(seen.values())
 
+    def _candidates(self, placeholders):
+        names = sorted(placeholders)
+        cand_lists = []
+        terms = self.terms()
+        consts = {}
+        for st in self.sites:
+            for t, _ in st.conds:
+                for x in ast.walk(t):
+                    if isinstance(x, ast.Constant) and isinstance(x.value, (int, float)) and not isinstance(x.value, bool):
+                        consts.setdefault(repr(x.value), x)
+        for nme in names:
+            pred = placeholders[nme]
+            pool = list(consts.values()) if nme.startswith("K_") else terms
+            cl = [t for t in pool if pred is None or _safe(pred, t)]
+            if not cl:
+                return names, None, f"no term of the guards matches placeholder {nme}"
+            cand_lists.append(cl)
+        return names, cand_lists, ""
+
+    def site_match(self, expected_src: str, placeholders: Dict[str, Optional[Callable]] = None):
+        """Some raise site whose innermost k path conditions are equivalent to `expected`
+        (outer conditions are context) and whose whole path condition is satisfiable.
+
+        Returns (ok, binding, detail, site)."""
+        from .formula import equivalent
+
+        placeholders = placeholders or {}
+        exp = parse_expr(expected_src)
+        names, cand_lists, err = self._candidates(placeholders)
+        if cand_lists is None:
+            return False, None, err, None
+        last = "no raise site has these innermost conditions"
+        for combo in itertools.product(*cand_lists) if names else [()]:
+            mapping = dict(zip(names, combo))
+            e = substitute(exp, mapping)
+            canon = Canon()
+            try:
+                R = canon.formula(e)
+            except AnalysisError as exc:
+                last = str(exc)
+                continue
+            ratoms = atoms_of(R)
+            for s in self.sites:
+                fs = s.formula[1]
+                for k in range(1, len(fs) + 1):
+                    suffix = ("and", fs[-k:])
+                    sat = atoms_of(suffix)
+                    if not ({a for a in ratoms if a[0] != "num"} <= sat and _num_subjects(ratoms) <= _num_subjects(sat)):
+                        continue
+                    try:
+                        ok, _, _ = equivalent(R, suffix)
+                    except AnalysisError:
+                        continue
+                    if ok:
+                        if not satisfiable(s.formula):
+                            last = f"matching raise at line {s.node.lineno} is dead (path condition unsatisfiable)"
+                            continue
+                        ctx = [show(c, self.canon) for c in fs[:-k]]
+                        return True, {k2: src(v) for k2, v in mapping.items()}, f"context: {ctx}", s
+        return False, None, last, None
+
     def rejects(self, expected_src: str, placeholders: Dict[str, Optional[Callable]] = None, max_atoms: int = 18):
         """Does `expected` (a Python expression over placeholders) imply that the function raises?
 
         Returns (ok, binding text, detail)."""
         placeholders = placeholders or {}
         exp = parse_expr(expected_src)
-        names = sorted(placeholders)
-        cand_lists = []
-        terms = self.terms()
-        for nme in names:
-            pred = placeholders[nme]
-            cl = [t for t in terms if pred is None or _safe(pred, t)]
-            if not cl:
-                return False, None, f"no term of the guards matches placeholder {nme}"
-            cand_lists.append(cl)
+        names, cand_lists, err = self._candidates(placeholders)
+        if cand_lists is None:
+            return False, None, err
         last = "no binding tried"
         for combo in itertools.product(*cand_lists) if names else [()]:
             mapping = dict(zip(names, combo))
@@ -100,45 +156,23 @@ class Rejections:
             if not satisfiable(R):
                 last = "expected rejection predicate unsatisfiable under this binding"
                 continue
-            # transitive closure of sites sharing atoms
-            rel_atoms = set(ratoms)
-            chosen = []
-            changed = True
-            while changed:
-                changed = False
-                for s in self.sites:
-                    if s in chosen:
-                        continue
-                    sa = atoms_of(s.formula)
-                    if _shares(sa, rel_atoms):
-                        chosen.append(s)
-                        rel_atoms |= sa
-                        changed = True
+            chosen = [s for s in self.sites if _shares(atoms_of(s.formula), ratoms)]
             if not chosen:
                 last = "no raise site mentions the bound terms"
                 continue
-            if len([a for a in rel_atoms if a[0] != "num"]) > max_atoms:
-                # fall back to directly related sites only
-                chosen = [s for s in self.sites if _shares(atoms_of(s.formula), ratoms)]
-                rel_atoms = set(ratoms)
-                for s in chosen:
-                    rel_atoms |= atoms_of(s.formula)
-                if len([a for a in rel_atoms if a[0] != "num"]) > max_atoms:
-                    raise AnalysisError(
-                        f"{self.fi.qualname}: too many atoms ({len(rel_atoms)}) to decide rejection of {expected_src}"
-                    )
-            disj = ("or", [s.formula for s in chosen])
-            ok = True
-            for v in valuations(rel_atoms):
-                if evaluate(R, v.__getitem__) and not evaluate(disj, v.__getitem__):
-                    ok = False
-                    last = "counter-valuation: " + ", ".join(
-                        f"{_atxt(a)}={'T' if b else 'F'}" for a, b in sorted(v.items(), key=str) if a in ratoms
-                    )
-                    break
+            disj = ("or", [s.formula for s in self.sites])
+            ok, model = implies(R, disj)
             if ok:
-                return True, {k: src(v) for k, v in mapping.items()}, f"{len(chosen)} raise site(s)"
+                return True, {k: src(v) for k, v in mapping.items()}, f"{len(chosen)} related raise site(s)"
+            bools, nums = model
+            last = "counter-valuation: " + ", ".join(
+                f"{_atxt(a)}={'T' if b else 'F'}" for a, b in sorted(bools.items(), key=str) if a in ratoms
+            ) + "".join(f", {k[:40]}={v:g}" for k, v in nums.items())
         return False, None, last
+
+
+def _num_subjects(atoms):
+    return {a[1] for a in atoms if a[0] == "num"}
 
 
 def _atxt(a) -> str:
